@@ -55,7 +55,11 @@ pub fn build_front_ends() -> Result<(), String> {
     }
     std::fs::copy(format!("{}/target/py/release/libpickle_fuzzer.so", root), pf.join("_native.so")).map_err(|e| format!("copy _native.so: {}", e))?;
     // stub: atheris itself is not under test (and is not installed for python3)
-    std::fs::write(ath.join("__init__.py"), "def instrument_func(f):\n    return f\ndef Setup(*a, **k):\n    pass\ndef Fuzz(*a, **k):\n    pass\n").map_err(|e| e.to_string())?;
+    std::fs::write(
+        ath.join("__init__.py"),
+        "# stub of atheris for the C13 check: Setup() remembers the callback, Fuzz() feeds it INPUTS\nINPUTS = []\n_cb = None\ndef instrument_func(f):\n    return f\ndef Setup(argv, cb, *a, **k):\n    global _cb\n    _cb = cb\ndef Fuzz(*a, **k):\n    for d in list(INPUTS):\n        _cb(d)\n",
+    )
+    .map_err(|e| e.to_string())?;
     Ok(())
 }
 
@@ -398,7 +402,8 @@ pub fn draw_case(seed: u64, index: u64) -> Case {
     if rng.random_range(0..2) == 0 {
         Case::Single { opts, via_action, style }
     } else {
-        let samples = rng.random_range(0..=12);
+        // mostly small batches; one in 12 is large enough to keep every rayon worker busy for a while
+        let samples = if rng.random_range(0..12) == 0 { rng.random_range(40..260) } else { rng.random_range(0..=12) };
         let mut faults = vec![];
         if samples > 0 && rng.random_range(0..2) == 0 {
             let n = rng.random_range(1..=3.min(samples));
@@ -635,6 +640,8 @@ pub enum PyCall {
 
 #[derive(Clone, Debug)]
 pub struct PySeq {
+    /// drive `fuzz_pickle_parser(parser, protocol)` through the stub atheris: every call is FromBytes
+    pub harness: bool,
     pub mutator_class: bool,
     pub protocol: u8,
     pub seed: Option<u64>,
@@ -644,7 +651,7 @@ pub struct PySeq {
 impl PySeq {
     pub fn to_json(&self) -> Value {
         json!({
-            "ctor": {"kind": if self.mutator_class { "PickleMutator" } else { "Generator" }, "protocol": self.protocol, "seed": self.seed},
+            "ctor": {"kind": if self.harness { "fuzz_pickle_parser" } else if self.mutator_class { "PickleMutator" } else { "Generator" }, "protocol": self.protocol, "seed": self.seed},
             "calls": self.calls.iter().map(|c| match c {
                 PyCall::Generate => json!(["generate"]),
                 PyCall::FromBytes(b) => json!(["generate_from_bytes", desc::hex(b)]),
@@ -671,6 +678,7 @@ impl PySeq {
             })
             .collect();
         Some(PySeq {
+            harness: v["ctor"]["kind"].as_str()? == "fuzz_pickle_parser",
             mutator_class: v["ctor"]["kind"].as_str()? == "PickleMutator",
             protocol: v["ctor"]["protocol"].as_u64()? as u8,
             seed: v["ctor"]["seed"].as_u64(),
@@ -744,7 +752,8 @@ impl PySeq {
 
 pub fn draw_pyseq(seed: u64, index: u64) -> PySeq {
     let mut rng = ChaCha8Rng::seed_from_u64(desc::derive_seed(seed, "C13.py", index));
-    let mutator_class = rng.random_range(0..3) == 0;
+    let harness = rng.random_range(0..6) == 0;
+    let mutator_class = !harness && rng.random_range(0..3) == 0;
     let n = rng.random_range(1..=7);
     let mut calls = vec![];
     let mut inputs: Vec<Vec<u8>> = vec![];
@@ -759,7 +768,9 @@ pub fn draw_pyseq(seed: u64, index: u64) -> PySeq {
         b
     };
     for _ in 0..n {
-        if mutator_class {
+        if harness {
+            calls.push(PyCall::FromBytes(bytes_in(&mut rng, &mut inputs)));
+        } else if mutator_class {
             match rng.random_range(0..8) {
                 0 => calls.push(PyCall::Reset),
                 1 => calls.push(PyCall::SetRange(rng.random_range(0..30), rng.random_range(30..90))),
@@ -781,7 +792,7 @@ pub fn draw_pyseq(seed: u64, index: u64) -> PySeq {
             }
         }
     }
-    PySeq { mutator_class, protocol: rng.random_range(0..6), seed: if rng.random_range(0..5) > 0 { Some(rng.random::<u64>() >> 12) } else { None }, calls }
+    PySeq { harness, mutator_class, protocol: rng.random_range(0..6), seed: if !harness && rng.random_range(0..5) > 0 { Some(rng.random::<u64>() >> 12) } else { None }, calls }
 }
 
 /// run a batch of sequences in one python3 process on the freshly built `_native`
